@@ -162,13 +162,17 @@ fn expand_struct_assertion(value_expr: &TokenStream, pattern: &PatternStruct) ->
         quote! { , .. }
     };
 
+    // Bind each field to a reserved name so that the bindings cannot shadow the
+    // caller's variables inside pattern expressions (`age: == age`).
+    let field_bindings: Vec<_> = field_names.iter().map(field_binding).collect();
+
     let field_assertions: Vec<_> = fields
         .iter()
         .map(|f| {
-            let field_name = f.operations.root_field_name();
+            let field_binding = field_binding(&f.operations.root_field_name());
 
-            // Expand the FieldAssertion starting from the bound field name
-            let assertion = expand_field_assertion(&quote! { #field_name }, f);
+            // Expand the FieldAssertion starting from the bound field
+            let assertion = expand_field_assertion(&quote! { #field_binding }, f);
 
             // Wrap the assertion with the span of the field pattern if available
             if let Some(span) = f.pattern.span() {
@@ -191,7 +195,7 @@ fn expand_struct_assertion(value_expr: &TokenStream, pattern: &PatternStruct) ->
     quote_spanned! {span=>
         #[allow(unreachable_patterns)]
         match &#value_expr {
-            #struct_path { #(#field_names),* #rest_pattern } => {
+            #struct_path { #(#field_names: #field_bindings),* #rest_pattern } => {
                 #(#field_assertions)*
             },
             _ => {
@@ -199,6 +203,20 @@ fn expand_struct_assertion(value_expr: &TokenStream, pattern: &PatternStruct) ->
             }
         }
     }
+}
+
+/// Reserved name for the binding of a destructured field, spanned like the field.
+fn field_binding<T: std::fmt::Display + quote::ToTokens>(field_name: &T) -> Ident {
+    let span = field_name
+        .to_token_stream()
+        .into_iter()
+        .next()
+        .map_or_else(Span::call_site, |token| token.span());
+    let name = field_name.to_string();
+    Ident::new(
+        &format!("__assert_struct_f_{}", name.trim_start_matches("r#")),
+        span,
+    )
 }
 
 /// Generate wildcard struct assertion using direct field access
@@ -510,7 +528,7 @@ fn expand_string_assertion(value_expr: &TokenStream, pattern: &PatternString) ->
     let span = lit.span();
     let error_push = generate_error_push(
         span,
-        quote!(format!("{:?}", actual)),
+        quote!(format!("{:?}", __assert_struct_actual)),
         quote!(None),
         pattern.node_id,
     );
@@ -522,8 +540,8 @@ fn expand_string_assertion(value_expr: &TokenStream, pattern: &PatternString) ->
         // 2. Reference-typed expressions (e.g. from index operations) are not
         //    moved - fixes E0507 "cannot move out of shared reference".
         let __assert_struct_tmp = &#value_expr;
-        let actual = (*__assert_struct_tmp).as_ref();
-        if !matches!(actual, #lit) {
+        let __assert_struct_actual = (*__assert_struct_tmp).as_ref();
+        if !matches!(__assert_struct_actual, #lit) {
             #error_push
         }
     }}
@@ -613,9 +631,9 @@ fn expand_regex_assertion(value_expr: &TokenStream, pattern: &PatternRegex) -> T
     quote_spanned! {span=>
         {
             use ::assert_struct::Like;
-            let re = ::assert_struct::__macro_support::Regex::new(#pattern_str)
+            let __assert_struct_re = ::assert_struct::__macro_support::Regex::new(#pattern_str)
                 .expect(concat!("Invalid regex pattern: ", #pattern_str));
-            if !#value_expr.like(&re) {
+            if !#value_expr.like(&__assert_struct_re) {
                 #error_push
             }
         }
